@@ -207,6 +207,26 @@ def runResize : Store → List Json → List Json → Option (List Json)
     | none => runResize s os (raiseJ :: acc)
     | some s' => runResize s' os (storeToJson s' :: acc)
 
+/-- a sequence of `resize` / `set` calls on one object; the object after every call -/
+def runPiOps : Store → List Json → List Json → Option (List Json)
+  | _, [], acc => some acc.reverse
+  | s, o :: os, acc => do
+    let op ← getStr o "op"
+    match op with
+    | "resize" =>
+      let ns ← getInt o "ns"
+      let ne ← getInt o "ne"
+      match resize ns ne s with
+      | none => runPiOps s os (raiseJ :: acc)
+      | some s' => runPiOps s' os (storeToJson s' :: acc)
+    | "set" =>
+      let m ← getNat o "m"
+      let e ← entryOfJson o
+      match setSeries m e s with
+      | none => runPiOps s os (raiseJ :: acc)
+      | some s' => runPiOps s' os (storeToJson s' :: acc)
+    | _ => none
+
 def handle (j : Json) : Option Json := do
   let op ← getStr j "op"
   match op with
@@ -238,6 +258,11 @@ def handle (j : Json) : Option Json := do
       let s ← (getObj j "store").bind storeOfJson
       let seq ← getArr j "seq"
       let r ← runResize s seq []
+      pure (Json.arr r.toArray)
+  | "pi_ops" =>
+      let s ← (getObj j "store").bind storeOfJson
+      let ops ← getArr j "ops"
+      let r ← runPiOps s ops []
       pure (Json.arr r.toArray)
   | "floor" =>
       let g ← getInt j "g"
